@@ -153,6 +153,7 @@ def check_tables(ctx, lane, scenes, egos, div, index):
 
         # ---- row content ------------------------------------------------------------------------------
         err = {"x": [], "y": [], "yaw": []}
+        err_exact = []
         paired = 0
         bad_row = False
         for i, (si, fnum, status, g, e, ego5, src) in enumerate(rows):
@@ -202,6 +203,7 @@ def check_tables(ctx, lane, scenes, egos, div, index):
                 err["x"].append(pg[0] - pe[0])
                 err["y"].append(pg[1] - pe[1])
                 err["yaw"].append(rm.wrap(rm.q_yaw(V.quat_of(g)) - rm.q_yaw(V.quat_of(e))))
+                err_exact.append(ego_exact)
             if bad_row:
                 return
         ctx.probe("c19_rows", len(rows))
@@ -219,9 +221,10 @@ def check_tables(ctx, lane, scenes, egos, div, index):
             if len(got_err) != len(want):
                 ctx.violate("C19", "errors_are_differences", "%d %s-errors for %d paired rows" % (len(got_err), col, len(want)), {}, index)
                 continue
-            for a, b in zip(got_err, want):
+            for a, b, exact in zip(got_err, want, err_exact):
                 d = rm.wrap(a - b) if col == "yaw" else a - b
-                if abs(d) > 1e-6 * max(1.0, abs(b)):
+                # rows of an interpolated frame: the frame's own ego rotation deviates ~1e-6 rad from the proportional one
+                if abs(d) > (1e-6 if exact else 1e-4) * max(1.0, abs(b)):
                     # yaw exactly +-pi may legitimately come out with either sign
                     ctx.violate("C19", "errors_are_differences", "%s error %r, ground truth minus estimate is %r" % (col, a, b), {}, index)
                     break
@@ -272,7 +275,7 @@ def check_tables(ctx, lane, scenes, egos, div, index):
                     rms = math.sqrt(sum(v * v for v in want) / len(want))
                     mx = max(abs(v) for v in want)
                     for name, w in (("average", mean), ("rms", rms), ("max", mx)):
-                        if _isnull(row[name]) or abs(float(row[name]) - w) > 1e-6 * max(1.0, abs(w)):
+                        if _isnull(row[name]) or abs(float(row[name]) - w) > (1e-6 if all(err_exact) else 1e-4) * max(1.0, abs(w)):
                             ctx.violate("C19", "summaries", "%s: %s of the %s error for %s is %r, the paired rows give %r" %
                                         (what, name, col, lab, row[name], w), {}, index)
                             return
